@@ -2920,3 +2920,74 @@ func c01R15(c *Ctx, r *Report) {
 	}
 	r.Floor(rule, n, 7, "width-sensitive cases of foldint")
 }
+
+// ---- C13.R14: the embedded QBE does not abort on a constant zero divisor; C02.R7: non-finite floats ------------
+
+func init() {
+	lateInits = append(lateInits, func() {
+		props["C13"].Quick = append(props["C13"].Quick, c13R14)
+		props["C02"].Quick = append(props["C02"].Quick, c02R7)
+		props["C13"].Explanation += " (R14) opfold in the embedded QBE leaves a division by a constant zero unfolded instead of calling err(): a QBE error reaches the user only as 'qbe failed', a diagnostic without a source location."
+		props["C02"].Explanation += " (R7) the native float printers append '.0' only to texts that are neither exponent forms nor inf/nan."
+	})
+}
+
+func c13R14(c *Ctx, r *Report) {
+	const rule = "C13.R14"
+	r.Describe(rule, "qbe/fold.c opfold: the statement guarded by czero(divisor) does not call err/die")
+	cf := cLoad(c, r, rule, "qbe/fold.c")
+	if cf == nil {
+		return
+	}
+	fn := cf.Funcs["opfold"]
+	if !r.Anchor(rule, fn != nil, "qbe/fold.c:opfold") {
+		return
+	}
+	n := 0
+	fn.Walk(func(x *CNode) bool {
+		if x.Kind != "IfStmt" || len(x.Inner) < 2 || !strings.Contains(x.Inner[0].Src(), "czero") {
+			return true
+		}
+		n++
+		aborts := false
+		x.Inner[1].Walk(func(y *CNode) bool {
+			if y.Kind == "CallExpr" && (y.Callee() == "err" || y.Callee() == "die") {
+				aborts = true
+			}
+			return true
+		})
+		r.Check(!aborts, rule, "fold.c:opfold", "a constant zero divisor does not abort the back end", c.cpos(cf, x),
+			"`let q := 1.0 / 0.0;` (or an integer division whose divisor folds to 0) makes QBE exit with 'null divisor': the compiler fails with 'qbe failed with exit code 1', an error without a location in the input")
+		return true
+	})
+	r.Floor(rule, n, 1, "zero-divisor tests in opfold")
+}
+
+func c02R7(c *Ctx, r *Report) {
+	const rule = "C02.R7"
+	r.Describe(rule, "runtime: print_float (io.c) and ferret_string_concat_f64 (string_runtime.c) test the formatted text for 'n' / 'i' (nan, inf) next to 'e' / 'E' before appending \".0\"")
+	for _, spec := range []struct{ rel, fn string }{
+		{"runtime/libs/io.c", "print_float"},
+		{"runtime/core/string_runtime.c", "ferret_string_concat_f64"},
+	} {
+		cf := cLoad(c, r, rule, spec.rel)
+		if cf == nil {
+			continue
+		}
+		fn := cf.Funcs[spec.fn]
+		if !r.Anchor(rule, fn != nil, shortC(spec.rel)+":"+spec.fn) {
+			continue
+		}
+		chars := map[string]bool{}
+		fn.Walk(func(x *CNode) bool {
+			if x.Kind == "CharacterLiteral" {
+				chars[x.Value] = true
+			}
+			return true
+		})
+		// clang prints character literals as their code
+		has := func(ch byte) bool { return chars[string(ch)] || chars[fmt.Sprint(int(ch))] }
+		r.Check(has('n') && has('i') && has('e'), rule, shortC(spec.rel)+":"+spec.fn, "inf / nan are recognised before \".0\" is appended", c.cpos(cf, fn),
+			"a non-finite float is printed as inf.0 / nan.0, which is not the text of a number (the wasm target prints Infinity / NaN)")
+	}
+}
